@@ -1,5 +1,71 @@
-(* C25 stub (theorems follow) *)
-From V Require Import Model.Packet Proofs.Packet.
-Theorem C25_census : census_ok = true.
-Proof. exact census_holds. Qed.
-Print Assumptions C25_census.
+(* C25  Tampered NTS packets are never accepted as authentic.
+   Property theorems only; proofs are in Proofs/Tamper.v.
+
+   Cryptography is an ideal AEAD, given as an oracle [dec key nonce aad ct].
+   The hypothesis [genuine] is the idealisation (forgery probability zero, one
+   NTS-protected packet in flight): apart from cookie encryptions, which are
+   made with EMPTY associated data, the only tuple that decrypts (under any
+   key) is the genuine authenticator tuple (n0, a0, c0) = (nonce, associated
+   data, ciphertext) of the valid packet; it is visible in every statement.
+
+   [agrees n0 a0 c0 data] says that [data] carries a0 in [0,|a0|) (the header
+   and every extension field before the authenticator field), n0 at
+   [|a0|+8, |a0|+8+|n0|) (the authenticator's nonce) and c0 at
+   [|a0|+8+pad4|n0|, ..+|c0|) (its ciphertext): i.e. that [data] was NOT changed
+   in any bit of the ranges the property names.
+
+   [reports_trusted r]: the decode result r carries a non-empty authenticated or
+   encrypted field list, or recovered cookie keys (also when the result is the
+   packet returned inside a decrypt error). *)
+From V Require Import Model.Packet Proofs.Packet Proofs.Tamper.
+
+Definition genuine (dec : oracle) (n0 a0 c0 : bytes) : Prop :=
+  forall key n a c p, dec key n a c = Some p -> a = [] \/ (n = n0 /\ a = a0 /\ c = c0).
+
+(* First sentence of the property, for all three key contexts and every byte
+   string (any length, any number of changed bits): if anything is reported as
+   authenticated or encrypted, or cookie keys are recovered, then the datagram
+   agrees with the genuine packet on the header, on every field before the
+   authenticator, on the nonce and on the ciphertext. *)
+Theorem C25_protected : forall (dec : oracle) (n0 a0 c0 : bytes), genuine dec n0 a0 c0 ->
+  forall (cx : ctx) (data : bytes),
+  reports_trusted (deserialize dec cx data) -> agrees n0 a0 c0 data.
+Proof. exact tamper_protected. Qed.
+
+(* the same, as the property words it *)
+Theorem C25_tampered_rejected : forall (dec : oracle) (n0 a0 c0 : bytes), genuine dec n0 a0 c0 ->
+  forall (cx : ctx) (data : bytes),
+  ~ agrees n0 a0 c0 data -> ~ reports_trusted (deserialize dec cx data).
+Proof. intros dec n0 a0 c0 Hg cx data Hn Hr. apply Hn. eapply tamper_protected; eassumption. Qed.
+
+(* Second sentence ("any other change never makes different content appear
+   authenticated or encrypted"): NOT proved as a theorem here (it needs the
+   determinism of the parse of the unchanged prefix); it is covered by the
+   correspondence check and its monitor (tools/props/c25.py), which compares the
+   reported lists with those of the unmodified packet at every byte position.
+   C25_rest_harmless is therefore missing: this file is _partial for C25. *)
+
+(* non-vacuity: a one-entry table oracle is [genuine]; the NTPv4 datagram
+   header ++ unique-identifier field ++ authenticator field authenticates under
+   it (the identifier is reported as authenticated) and agrees; with one header
+   bit flipped nothing is reported as authenticated any more *)
+Example C25_nonvacuous :
+  let hdr := 35 :: repeat 0 47 in
+  let a0 := hdr ++ [1; 4; 0; 16] ++ repeat 5 12 in
+  let n0 := [1; 2; 3; 4] in
+  let c0 := [9; 9; 9; 9] in
+  let auth := [4; 4; 0; 28; 0; 4; 0; 4] ++ n0 ++ c0 ++ repeat 0 12 in
+  let dec := table_dec [([7], n0, a0, c0, [])] in
+  genuine dec n0 a0 c0 /\
+  reports_trusted (deserialize dec (ClientKey [7]) (a0 ++ auth)) /\
+  agrees n0 a0 c0 (a0 ++ auth) /\
+  ~ reports_trusted (deserialize dec (ClientKey [7]) ((35 :: 1 :: repeat 0 46) ++ [1; 4; 0; 16] ++ repeat 5 12 ++ auth)).
+Proof.
+  cbv zeta. split; [intros key n a c p; apply table_single_genuine|].
+  split; [vm_compute; left; discriminate|].
+  split; [vm_compute; repeat split; reflexivity|].
+  vm_compute. intros [H|H]; apply H; reflexivity.
+Qed.
+
+Print Assumptions C25_protected.
+Print Assumptions C25_tampered_rejected.
